@@ -459,7 +459,9 @@ type scen struct {
 	counts  map[string]int
 }
 
-var allKeys = []int{1, 2, 3, 4, 5}
+// keys 1-3 are accounts, 4-7 pools (any key may occasionally play the other role)
+var allKeys = []int{1, 2, 3, 4, 5, 6, 7}
+var poolKeys = []int{4, 5, 6, 7}
 
 func (sc *scen) acc(k int) proto4.Account { return proto4.Account(sc.keys[k].PublicKey()) }
 
@@ -664,6 +666,8 @@ func (sc *scen) exec(o opDesc) (coqOp string, ok bool, errStr string, payload []
 		var atts []proto4.PoolAttachment
 		var dets []proto4.PoolDetachment
 		honest := len(o.Es) > 0
+		var firstSig types.Signature
+		firstTerm := "NoSig"
 		for _, e := range o.Es {
 			if !(e.VU == 1 && (e.Signer == "pool" || (!attach && e.Signer == "acct"))) {
 				honest = false
@@ -697,6 +701,12 @@ func (sc *scen) exec(o opDesc) (coqOp string, ok bool, errStr string, payload []
 			st := sigTerm(sk, fmt.Sprintf("%s %d %d %d", msg, sa, sp, svu))
 			if e.Signer == "zero" {
 				sig, st = types.Signature{}, "NoSig"
+			}
+			if e.Signer == "same-as-first" {
+				sig, st = firstSig, firstTerm
+			}
+			if len(terms) == 0 {
+				firstSig, firstTerm = sig, st
 			}
 			terms = append(terms, fmt.Sprintf("Entry %d %d %d %v %s", e.A, e.P, e.VU, e.VU == 0, st))
 			if attach {
@@ -1185,7 +1195,7 @@ func weighted(r *rng.R, w []int) int {
 
 func (g *gen) account() int {
 	if g.r.Chance(1, 12) {
-		return 4 + g.r.Intn(2) // a pool key used as an account
+		return 4 + g.r.Intn(4) // a pool key used as an account
 	}
 	return 1 + g.r.Intn(3)
 }
@@ -1194,7 +1204,7 @@ func (g *gen) poolKey() int {
 	if g.r.Chance(1, 12) {
 		return 1 + g.r.Intn(3) // an account key used as a pool
 	}
-	return 4 + g.r.Intn(2)
+	return 4 + g.r.Intn(4)
 }
 
 func (g *gen) contract() int {
@@ -1311,13 +1321,17 @@ func (g *gen) entries(sc *scen, attach bool) opDesc {
 	if attach {
 		o.Kind = "attach"
 	}
-	n := 1 + r.Intn(2)
+	n := 1 + r.Intn(3)
 	if r.Chance(1, 40) {
 		n = 0
 	}
 	bad := r.Chance(1, 3)
+	oneAccount, shared := r.Bool(), g.account()
 	for i := 0; i < n; i++ {
 		e := entryDesc{A: g.account(), P: g.poolKey(), VU: 1, Signer: "pool"}
+		if oneAccount {
+			e.A = shared // one account collects several pools: attachment order matters
+		}
 		if attach {
 			// prefer pools that exist
 			var ex []int
@@ -1340,7 +1354,14 @@ func (g *gen) entries(sc *scen, attach bool) opDesc {
 			}
 		}
 		if bad && (i == n-1 || r.Bool()) {
-			switch r.Intn(8) {
+			switch r.Intn(9) {
+			case 8:
+				// the signature bytes of the first entry of the batch on a different link
+				if i > 0 && o.Es[0].P != e.P {
+					e.Signer = "same-as-first"
+				} else {
+					e.Signer = "stranger"
+				}
 			case 0:
 				e.Signer = "stranger"
 			case 1:
@@ -1442,9 +1463,25 @@ func (g *gen) next(sc *scen, i int) []opDesc {
 		// prelude: pools exist and are attached early, so that debits reach them
 		switch i {
 		case 0:
-			return []opDesc{g.replenish(sc, true)}
+			// several pools come into existence
+			o := opDesc{Kind: "replP", C: 0, Signer: "ok", Target: g.amount(sc, new(big.Int))}
+			if o.Target == "0" {
+				o.Target = "1"
+			}
+			for _, j := range r.Perm(4)[:2+r.Intn(3)] {
+				o.Keys = append(o.Keys, poolKeys[j])
+			}
+			if r.Chance(1, 3) {
+				o.Keys = append(o.Keys, o.Keys[0])
+			}
+			return []opDesc{o}
 		case 1:
-			o := g.entries(sc, true)
+			// and are attached to one account in a random order
+			o := opDesc{Kind: "attach"}
+			a := 1 + r.Intn(3)
+			for _, j := range r.Perm(4)[:2+r.Intn(3)] {
+				o.Es = append(o.Es, entryDesc{A: a, P: poolKeys[j], VU: 1, Signer: "pool"})
+			}
 			return []opDesc{o}
 		case 2:
 			return []opDesc{g.fund(sc)}
@@ -1476,6 +1513,132 @@ type scenResult struct {
 	sdetail string
 	err     error
 	nontriv bool
+}
+
+// ---- directed scenarios: attachment order --------------------------------------------
+
+// A dirSpec attaches 3 or 4 pools to one account in a given order, detaches the links at
+// the given positions (first / middle / last, alone or two in one batch), optionally
+// attaches the first detached pool again, and then issues priced RPCs whose cost drains
+// the first remaining pool completely and the next one only partly, so that the
+// individual pool balances reveal the order in which the host drains them.
+type dirSpec struct {
+	A        int
+	Order    []int // pool keys in attachment order
+	Det      []int // positions in Order that are detached (one batch)
+	Batch    bool  // attach with one RPC (else one RPC per pool)
+	Own      bool  // the account has an own balance below the cost
+	Reattach bool
+	Svc      int // 0 write, 1 verify, 2 read (falls back to write if nothing is stored)
+}
+
+func permutations(xs []int) [][]int {
+	if len(xs) <= 1 {
+		return [][]int{append([]int(nil), xs...)}
+	}
+	var out [][]int
+	for i := range xs {
+		rest := append(append([]int(nil), xs[:i]...), xs[i+1:]...)
+		for _, p := range permutations(rest) {
+			out = append(out, append([]int{xs[i]}, p...))
+		}
+	}
+	return out
+}
+
+func directedSpecs() []dirSpec {
+	var specs []dirSpec
+	add := func(order, det []int) {
+		i := len(specs)
+		specs = append(specs, dirSpec{A: 1 + i%3, Order: order, Det: det, Batch: i%2 == 0, Own: i%4 >= 2, Reattach: i%5 == 4, Svc: i % 3})
+	}
+	for k, p := range permutations([]int{0, 1, 2}) {
+		for pos := 0; pos < 3; pos++ {
+			order := make([]int, 3)
+			for j, x := range p {
+				order[j] = poolKeys[(x+k)%4] // rotate which three of the four pools are used
+			}
+			add(order, []int{pos})
+		}
+	}
+	var pairs [][]int
+	for a := 0; a < 4; a++ {
+		for b := 0; b < 4; b++ {
+			if a != b {
+				pairs = append(pairs, []int{a, b})
+			}
+		}
+	}
+	for k, p := range permutations([]int{0, 1, 2, 3}) {
+		order := make([]int, 4)
+		for j, x := range p {
+			order[j] = poolKeys[x]
+		}
+		for pos := 0; pos < 4; pos++ {
+			add(order, []int{pos})
+		}
+		add(order, pairs[k%len(pairs)])
+	}
+	return specs
+}
+
+func (d dirSpec) plan(sc *scen) []opDesc {
+	svc := opDesc{Kind: "write", A: d.A, Sector: 2, Token: "ok"}
+	if stored := storedIdx(sc.ref); len(stored) > 0 {
+		switch d.Svc {
+		case 1:
+			svc = opDesc{Kind: "verify", A: d.A, Sector: stored[0], Token: "ok"}
+		case 2:
+			svc = opDesc{Kind: "read", A: d.A, Sector: stored[0], Len: 65536, Token: "ok"}
+		}
+	}
+	cost := sc.cost(svc)
+	each := new(big.Int).Div(new(big.Int).Mul(cost, big.NewInt(3)), big.NewInt(5)) // 0.6 cost per pool
+	ops := []opDesc{{Kind: "replP", C: 0, Keys: d.Order, Target: each.String(), Signer: "ok"}}
+	if d.Own {
+		ops = append(ops, opDesc{Kind: "fund", C: 0, Deps: []depDesc{{K: d.A, Amt: new(big.Int).Div(cost, big.NewInt(10)).String()}}, Signer: "ok"})
+	}
+	if d.Batch {
+		o := opDesc{Kind: "attach"}
+		for _, p := range d.Order {
+			o.Es = append(o.Es, entryDesc{A: d.A, P: p, VU: 1, Signer: "pool"})
+		}
+		ops = append(ops, o)
+	} else {
+		for _, p := range d.Order {
+			ops = append(ops, opDesc{Kind: "attach", Es: []entryDesc{{A: d.A, P: p, VU: 1, Signer: "pool"}}})
+		}
+	}
+	det := opDesc{Kind: "detach"}
+	for i, pos := range d.Det {
+		e := entryDesc{A: d.A, P: d.Order[pos], VU: 1, Signer: "pool"}
+		if (i+pos)%2 == 1 {
+			e.Signer = "acct"
+		}
+		det.Es = append(det.Es, e)
+	}
+	ops = append(ops, det)
+	if d.Reattach {
+		ops = append(ops, opDesc{Kind: "attach", Es: []entryDesc{{A: d.A, P: d.Order[d.Det[0]], VU: 1, Signer: "pool"}}})
+	}
+	// first remaining pool drained, second partly; then again; the last one is refused
+	return append(ops, svc, svc, svc)
+}
+
+func runPlanned(h *hostEnv, r *rng.R, d dirSpec) (*scen, []opDesc, *failure, error) {
+	sc, err := newScen(h, r)
+	if err != nil {
+		return nil, nil, nil, err
+	}
+	ops := d.plan(sc)
+	for i, o := range ops {
+		f, err := sc.step(o)
+		if err != nil || f != nil {
+			return sc, ops[:i+1], f, err
+		}
+	}
+	sc.counts["directed-attachment-order"]++
+	return sc, ops, sc.finish(), nil
 }
 
 // finish asks the host for the balances over the wire (RPCAccountBalance) and
@@ -1617,7 +1780,7 @@ func nontrivial(counts map[string]int) bool {
 
 func runC15(c *hx.Ctx) {
 	res := c.Res
-	res.Rule = "sequences of fund / replenish accounts / replenish pools (duplicates, targets below, at and above the balance) / attach / detach (valid, wrong key, replayed, expired) / read / write / verify RPCs against a real rhp4 host over siamux, 3 accounts x 2 pools x 2 contracts (one nearly exhausted), drawable funds steered to cost-1, cost, cost+1; non-trivial := at least one credit succeeded, one sector RPC was served and one was refused for insufficient funds; distinct by the operation sequence"
+	res.Rule = "sequences of fund / replenish accounts / replenish pools (duplicates, targets below, at and above the balance) / attach / detach (valid, wrong key, replayed, expired) / read / write / verify RPCs against a real rhp4 host over siamux, 3 accounts x 4 pools x 2 contracts (one nearly exhausted); directed scenarios attach 3 or 4 pools in every order, detach the first / a middle / the last link (or two in one batch), and then drain the pools partly so that the individual pool balances show the drain order, drawable funds steered to cost-1, cost, cost+1; non-trivial := at least one credit succeeded, one sector RPC was served and one was refused for insufficient funds; distinct by the operation sequence"
 
 	if c.Replay != "" {
 		var rp struct {
@@ -1651,7 +1814,8 @@ func runC15(c *hx.Ctx) {
 	}
 
 	const workers = 8
-	nScen := c.Scale(320, 4000)
+	specs := directedSpecs()
+	nScen := len(corpus()) + len(specs) + c.Scale(200, 4000)
 	opsPer := c.Scale(22, 30)
 	seeds := make([]*rng.R, nScen)
 	hostSeeds := make([]*rng.R, workers)
@@ -1693,6 +1857,8 @@ func runC15(c *hx.Ctx) {
 				if pre := corpus(); i < len(pre) {
 					ops = pre[i]
 					sc, f, err = runOps(h, r.Fork(), ops)
+				} else if j := i - len(pre); j < len(specs) {
+					sc, ops, f, err = runPlanned(h, r.Fork(), specs[j])
 				} else {
 					sc, ops, f, err = runGenerated(h, r.Fork(), opsPer)
 				}
@@ -1750,8 +1916,9 @@ func runC15(c *hx.Ctx) {
 	}
 	res.Explored = map[string]any{"scenarios": nScen, "ops_per_scenario": opsPer, "hosts": workers}
 	// several small files: bin/check evaluates them in parallel
-	for i := 0; i < len(cases); i += 40 {
-		res.WriteCases("Run.Run_C15", cases[i:min(i+40, len(cases))])
+	chunk := min(max((len(cases)+7)/8, 20), 60) // bin/check runs 8 coqc at a time
+	for i := 0; i < len(cases); i += chunk {
+		res.WriteCases("Run.Run_C15", cases[i:min(i+chunk, len(cases))])
 	}
 }
 
